@@ -81,6 +81,7 @@ def norm_out(v, facts):
             return val_key(x)
         if isinstance(x, TupV):
             return ("tup",) + tuple(conv(i) for i in x.items)
+        x = famify(x)
         if isinstance(x, ListV) and x.kind == "fam":
             return ("fam", Rat.atom(x.idx), x.lo, x.hi, conv(x.elem))
         if isinstance(x, ListV) and x.kind == "series":
